@@ -19,18 +19,30 @@ def rand_vec(rng, n, base=None):
     return [max(1, b + rng.randint(-6, 6)) for b in base]
 
 
-def groups(rng, n, grouped, strs):
-    """None (default index) or one group label per item"""
+def groups(rng, n, grouped, strs, style=None, few=None):
+    """None (default index) or one group label per item; `style`: value domain of the labels
+    (ints non-contiguous / negative, strs, half-integer floats, bools); `few`: number of groups"""
     if not grouped:
         return None
     k = rng.randint(max(2, (n + 1) // 2), n) if n > 2 else n
+    if few is not None:
+        k = min(few, n)
+    if style == 'bool':
+        k = min(k, 2)
     labels = [rng.randrange(k) for _ in range(n)]
     for g in range(k):                       # every label used at least once when possible
         if g < n and g not in labels:
             labels[g] = g
-    if strs:
+    if strs or style == 'str':
         names = rng.sample(STR_GROUPS, min(len(STR_GROUPS), k)) + [f'g{i}' for i in range(k)]
         return [names[g] for g in labels]
+    if style == 'float':
+        return [g * 0.5 - 1.0 for g in labels]     # -1.0, -0.5, 0.0, 0.5, 1.0, ...: exact binary
+                                                   # fractions that collide when truncated to int
+    if style == 'neg':
+        return [7 - 4 * g for g in labels]         # descending, negative values: order of np.unique matters
+    if style == 'bool':
+        return [bool(g) for g in labels]
     return [g * 3 + 1 for g in labels]       # non-contiguous ints
 
 
@@ -65,24 +77,34 @@ def need_theta(c):
     return any(m['type'] in ('select', 'interpolate') for m in c['models'])
 
 
+DESC_STYLES = [None, None, 'float', 'neg', 'str', 'bool']
+DESC_FORMS = ['list', 'list', 'array', 'int64', 'float', 'tuple']
+
+
 def base_case(rng, routine, n_rdm, n_cond, kinds, grouped_r=False, grouped_p=False, strs=False):
     base = rand_vec(rng, n_cond)
-    return {'routine': routine, 'n_cond': n_cond,
-            'vecs': [rand_vec(rng, n_cond, base) for _ in range(n_rdm)],
-            'rdm_groups': groups(rng, n_rdm, grouped_r, strs),
-            'pat_groups': groups(rng, n_cond, grouped_p, strs and rng.random() < 0.5),
-            'models': make_models(rng, n_cond, base, kinds),
-            'method': rng.choice(METHODS), 'seed': rng.randrange(10 ** 6)}
+    rstyle = rng.choice(DESC_STYLES)
+    pstyle = rng.choice([x for x in DESC_STYLES if x != 'bool'])
+    c = {'routine': routine, 'n_cond': n_cond,
+         'vecs': [rand_vec(rng, n_cond, base) for _ in range(n_rdm)],
+         'rdm_groups': groups(rng, n_rdm, grouped_r, strs, rstyle),
+         'pat_groups': groups(rng, n_cond, grouped_p, strs and rng.random() < 0.5, pstyle),
+         'models': make_models(rng, n_cond, base, kinds),
+         'method': rng.choice(METHODS), 'seed': rng.randrange(10 ** 6)}
+    form = rng.choice(DESC_FORMS)
+    if form != 'list':
+        c['desc_form'] = form
+    return c
 
 
 def pick_kinds(rng, fitted):
     pool = ['fixed', 'weighted', 'select', 'interpolate']
-    k = rng.choice([1, 2, 2, 3, 3])
+    k = rng.choice([1, 2, 2, 3, 3, 3, 4, 5])
     kinds = [rng.choice(pool) for _ in range(k)]
     return kinds
 
 
-def gen_one(rng, routine, small=False):
+def gen_one(rng, routine, small=False, force=None):
     gr, gp = rng.random() < 0.45, rng.random() < 0.45
     strs = rng.random() < 0.3
     if routine == 'fixed':
@@ -93,12 +115,23 @@ def gen_one(rng, routine, small=False):
     if routine == 'bootstrap':
         c = base_case(rng, routine, rng.randint(2, 7), rng.randint(3, 8), pick_kinds(rng, False),
                       gr, gp, strs)
-        c.update(bt=rng.choice(['both', 'rdm', 'pattern']), N=rng.randint(2, 4 if small else 8),
+        c.update(bt=rng.choice(['both', 'rdm', 'pattern']),
+                 N=rng.choice([2, 2, 3]) if small else rng.choice([2, 3, 4, 5, 6, 8, 12]),
                  boot_nc=rng.random() < 0.6)
+        if force == 'few' and c['bt'] == 'rdm':
+            c['bt'] = rng.choice(['both', 'pattern'])
+        if c['bt'] != 'rdm' and (rng.random() < 0.2 or force == 'few'):
+            # three condition groups only: most resamples are too small, often fewer than two usable
+            c['pat_groups'] = groups(rng, c['n_cond'], True, False, rng.choice([None, 'float', 'str']), few=3)
+            c['N'] = rng.choice([2, 2, 3])
         c['theta'] = given_theta(rng, c['models']) if need_theta(c) or rng.random() < 0.7 else None
         return c
     if routine == 'crossval':
         kind = rng.choice(['k_fold', 'k_fold', 'k_fold_pattern', 'k_fold_rdm', 'loo_rdm', 'loo_pattern'])
+        if force in ('reject', 'nonrandom'):
+            kind = rng.choice(['k_fold', 'k_fold_pattern', 'k_fold_rdm'])
+        if force == 'noceil':
+            kind = 'k_fold_pattern'
         if kind in ('k_fold_rdm', 'loo_rdm'):
             gp = False                        # these generators advertise positions (`index`)
         c = base_case(rng, routine, rng.randint(3, 7), rng.randint(6, 10), pick_kinds(rng, True),
@@ -121,6 +154,11 @@ def gen_one(rng, routine, small=False):
         if kind in ('k_fold', 'k_fold_pattern'):
             g['kp'] = rng.randint(1, max(1, min(3, npat // 2)))
             g['random'] = rng.random() < 0.7
+        if force == 'nonrandom' and 'random' in g:
+            g['random'] = False
+        if kind in ('k_fold', 'k_fold_pattern', 'k_fold_rdm') and (rng.random() < 0.12 or force == 'reject'):
+            which = rng.choice([k for k in ('kr', 'kp') if k in g])
+            g[which] = (nr if which == 'kr' else npat) + rng.randint(1, 2)   # refused by the generator
         c['gen'] = g
         c['calc_nc'] = rng.random() < 0.85
         if 'kp' in g and npat // g['kp'] < 3:
@@ -143,15 +181,24 @@ def gen_one(rng, routine, small=False):
         if c['fitter'] == 'regress' and c['method'] not in ('cosine', 'corr'):
             c['method'] = rng.choice(['cosine', 'corr'])
         if routine in ('bcv', 'dual'):
-            c.update(kr=rng.choice([1, 1, 2, 2, 3]), kp=rng.choice([1, 1, 2, 2]),
+            c.update(kr=rng.choice([1, 1, 2, 2, 3, None]), kp=rng.choice([1, 1, 2, 2, None]),
                      n_cv=rng.choice([1, 2, 2, 3]), use_correction=rng.random() < 0.6)
             if c['use_correction'] and c['n_cv'] == 1 and rng.random() < 0.8:
                 c['n_cv'] = 2
+            if force == 'default':
+                c[rng.choice(['kr', 'kp'])] = None
+            if force == 'optimize':
+                c['models'][0]['type'] = 'weighted'
+                c['models'][0]['vecs'] = (c['models'][0]['vecs'] * 2)[:2]
+                c['fitter'] = 'default'
+                c['N'] = 2
         if routine == 'random':
-            c.update(nr=rng.choice([0, 1, 1, 2]), np=rng.choice([0, 3, 3, 4]),
+            c.update(nr=rng.choice([0, 1, 1, 2, None]), np=rng.choice([0, 3, 3, 4, None]),
                      n_cv=rng.choice([1, 2, 2, 3]), use_correction=rng.random() < 0.6)
             if c['use_correction'] and c['n_cv'] == 1 and rng.random() < 0.8:
                 c['n_cv'] = 2
+            if force == 'default':
+                c[rng.choice(['nr', 'np'])] = None
         return c
     raise ValueError(routine)
 
@@ -165,9 +212,14 @@ def generate(rng, tier):
             yield gen_one(rng, rng.choice(ROUTINES), small=True)
         return
     n = {'quick': 36, 'thorough': 400}.get(tier, 36)
+    forced = {('bootstrap', 0): 'few', ('crossval', 1): 'reject', ('crossval', 2): 'nonrandom',
+              ('crossval', 3): 'noceil', ('bcv', 0): 'default', ('bcv', 3): 'optimize',
+              ('dual', 2): 'default', ('random', 1): 'default'}
     for rep in range(n):
-        for routine in ROUTINES:
-            yield gen_one(rng, routine)
+        for slot, routine in enumerate(ROUTINES):
+            # every 6th repetition forces the rarer option classes (so the required branch tags
+            # do not depend on luck); duplicates of a routine in ROUTINES take turns
+            yield gen_one(rng, routine, force=forced.get((routine, (rep + slot) % 6)))
     # a stack with a single RDM and one with a single RDM group
     c = gen_one(rng, 'fixed')
     c['vecs'] = c['vecs'][:1]
@@ -202,8 +254,35 @@ def features(case, impl):
         br.append('grouped:rdm')
     if case.get('pat_groups') is not None and len(set(ctx.pdesc)) < ctx.n_cond:
         br.append('grouped:pattern')
-    if any(isinstance(v, str) for v in (case.get('rdm_groups') or []) + (case.get('pat_groups') or [])):
+    allv = (case.get('rdm_groups') or []) + (case.get('pat_groups') or [])
+    if any(isinstance(v, str) for v in allv):
         br.append('desc:str')
+    if any(isinstance(v, float) for v in allv):
+        br.append('desc:float')
+    for vals in (case.get('rdm_groups'), case.get('pat_groups')):
+        if vals and any(isinstance(v, float) for v in vals) \
+                and len({int(v) for v in vals}) < len(set(vals)):
+            br.append('desc:float-collide-int')
+    if any(isinstance(v, bool) for v in allv):
+        br.append('desc:bool')
+    if any(isinstance(v, int) and not isinstance(v, bool) and v < 0 for v in allv):
+        br.append('desc:negative')
+    if allv and case.get('desc_form', 'list') != 'list':
+        br.append('desc:' + case['desc_form'])
+    if len(case['models']) >= 4:
+        br.append('models:4+')
+    if len({m['type'] for m in case['models']}) >= 3:
+        br.append('models:mixed3')
+    if case.get('N', 0) >= 8:
+        br.append('N:large')
+    if case.get('N', 9) == 2:
+        br.append('N:2')
+    if case['routine'] in ('bcv', 'dual') and (case.get('kr') is None or case.get('kp') is None):
+        br.append('k:default')
+    if case['routine'] == 'random' and (case.get('nr') is None or case.get('np') is None):
+        br.append('n:default')
+    if case['routine'] == 'crossval' and not case['gen'].get('random', True):
+        br.append('cv:nonrandom')
     for m in case['models']:
         br.append('model:' + m['type'])
     if case.get('theta') is not None:
@@ -215,7 +294,8 @@ def features(case, impl):
     if 'use_correction' in case:
         br.append('correction:' + ('on' if case['use_correction'] and case['n_cv'] > 1 else 'off'))
     if 'kr' in case:
-        br.append('k:1' if case['kr'] == 1 and case['kp'] == 1 else 'k:2+')
+        e = L.eff(case)
+        br.append('k:1' if e['kr'] == 1 and e['kp'] == 1 else 'k:2+')
     if case['routine'] == 'crossval':
         br.append('cv:noceil' if case['gen']['kind'] == 'k_fold_pattern' else 'cv:ceil')
     br.append('method:' + case['method'])
@@ -226,6 +306,16 @@ def features(case, impl):
          'n_cv': case.get('n_cv'), 'use_correction': case.get('use_correction'),
          'grouped_rdm': 'grouped:rdm' in br, 'grouped_pattern': 'grouped:pattern' in br}
     if isinstance(impl, dict):
+        if impl.get('exc') == 'AssertionError' and case['routine'] == 'crossval':
+            br.append('sets:rejected')
+        if 'exc' not in impl and 'evals' in impl and case['routine'] in ('bootstrap', 'bcv', 'random', 'dual'):
+            usable = sum(1 for row in impl['evals'] if next(_flat(row), None) is not None)
+            if usable < 2:
+                br.append('cov:undefined')
+        o = L.observe(case)
+        kinds = {f_['opt']['kind'] for f_ in o.get('fits', []) if f_.get('opt')}
+        for k_ in kinds:
+            br.append('fitcheck:' + k_)
         if 'exc' in impl:
             f['exc'] = impl['exc']
         elif 'evals' in impl:
